@@ -101,7 +101,7 @@ theorem mainStep_move {inp : RunInput} {s s' : Sys} {perm : List Name} (h : TdB 
           simp only [hn] at hs; cases hs
           have p := processResult_plain inp { s with resQ := rest, rpc := .pTop } n nd
           have o := processResult_outer inp { s with resQ := rest, rpc := .pTop } n nd
-          exact MainMove.same ⟨p.ev, p.td⟩ o.2.2.2.1 ⟨by simp [hr], by simp⟩
+          exact MainMove.same ⟨p.ev, p.td, p.tdn⟩ o.2.2.2.1 ⟨by simp [hr], by simp⟩
   | pJoin =>
     simp only [hr] at hs
     split at hs
